@@ -235,6 +235,11 @@ impl Core {
                     }
                 }
             }
+        } else if task.is_retracting() {
+            // A retracted prefilled task waits in the ready queue for the retract response
+            self.task_queues
+                .get_mut(task.resource_rq_id)
+                .remove(task_id, task.priority());
         }
         task.state
     }
